@@ -85,3 +85,31 @@ make_call_meth = Contract(
     canaries=["result is None"],
 )
 CONTRACTS.append(make_call_meth)
+
+# ------------------------------------------------------------------------------------------- _handle_keyword (C04: choices -> Literal[...])
+def _kw(n):
+    return ("node", "ast.keyword", {"arg": ("lit", "choices"),
+                                    "value": ("node", "ast.Tuple", {"elts": ("list", [("node", "ast.Constant", {"value": "str", "kind": None}) for _ in range(n)]),
+                                                                    "ctx": ("node", "ast.Load", {})})})
+
+
+handle_keyword = Contract(
+    "doctrans.emitter_utils:_handle_keyword",
+    properties=["C04"],
+    note="choices tuples of 1..3 string constants with typ 'str'; (non-str scalar types and Union are separate cases below)",
+    cases=[Case("str,choices=%d" % n, {"keyword": _kw(n), "typ": ("lit", "str")}) for n in (1, 2, 3)]
+    + [Case("int,choices=2", {"keyword": ("node", "ast.keyword", {"arg": ("lit", "choices"), "value": ("node", "ast.Tuple", {
+        "elts": ("list", [("node", "ast.Constant", {"value": "int", "kind": None}) for _ in range(2)]), "ctx": ("node", "ast.Load", {})})}), "typ": ("lit", "int")})],
+    ensures=[
+        Clause("HK-1", "result == \"Literal['\" + keyword.value.elts[0].value + \"']\"", when=["str,choices=1"],
+               note="C04: every string choice is written between single quotes - whatever the text is (empty, or itself a quote character)"),
+        Clause("HK-2", "result == \"Literal['\" + keyword.value.elts[0].value + \"', '\" + keyword.value.elts[1].value + \"']\"", when=["str,choices=2"]),
+        Clause("HK-3", "result == \"Literal['\" + keyword.value.elts[0].value + \"', '\" + keyword.value.elts[1].value + \"', '\" + keyword.value.elts[2].value + \"']\"",
+               when=["str,choices=3"], note="all choices, in order, none dropped"),
+        Clause("HK-int", "result == 'Literal[' + str(keyword.value.elts[0].value) + ', ' + str(keyword.value.elts[1].value) + ']'", when=["int,choices=2"],
+               note="C04: numeric choices are written as numbers (the pinned tree raised TypeError here: fixed)"),
+        Clause("HK-frame", "unchanged(keyword, old_keyword)"),
+    ],
+    canaries=["result == ''"],
+)
+CONTRACTS.append(handle_keyword)
